@@ -626,17 +626,57 @@ def _show(steps: dict) -> str:
     return "; ".join(f"{n}: ({', '.join(c.__name__ for c in s.accepted_events)}) -> ({', '.join(c.__name__ for c in s.return_types)})" for n, s in steps.items())
 
 
+_R3_MEMO: dict = {}
+
+
+def _r3_key(m, fname: str, thorough: bool) -> tuple:
+    """Everything the interpretation of ``fname`` depends on: its AST, the ASTs of the module functions it (transitively)
+    names, and the import table of the event classes.  Used only to avoid re-interpreting an unchanged function when the
+    checker self-test re-runs the rules on variants that edit something else."""
+    seen: list[str] = []
+    todo = [fname]
+    while todo:
+        f = todo.pop()
+        if f in seen or f not in m.functions:
+            continue
+        seen.append(f)
+        todo += [x.id for x in ast.walk(m.functions[f]) if isinstance(x, ast.Name) and x.id in m.functions and "." not in x.id]
+    return (fname, thorough, tuple(ast.dump(m.functions[f]) for f in sorted(seen)), tuple(sorted((k, v) for k, v in m.imports.items() if v.startswith(EVENTS + "."))))
+
+
 def _r3(chk, m, thorough: bool = False) -> None:
     T = _mk_classes()
     env, hooks = _env(m, T)
     issub = _issub(T)
     runs = 0
+    recording: list[tuple] = []
+
+    def emit(fname, desc, ok, instance, reason):
+        fn_ = m.functions.get(fname)
+        chk.ob("C23.R3", desc, ok, m=m, node=fn_, fn=fn_, instance=instance, reason=reason)
+        recording.append((fname, desc, ok, instance, reason))
+
+    def replay(key) -> int | None:
+        hit = _R3_MEMO.get(key)
+        if hit is None:
+            return None
+        for args in hit[0]:
+            emit(*args)
+        return hit[1]
 
     # ---- exactly one start / stop class
     for fname, field, other, base, pool in (
         ("_ensure_start_event_class", "accepted_events", "return_types", "StartEvent", ["StartEvent", "MyStart", "EvA"]),
         ("_ensure_stop_event_class", "return_types", "accepted_events", "StopEvent", ["StopEvent", "MyStop", "EvA"]),
     ):
+        if fname not in m.functions:
+            raise AnchorError(f"C23.R3: `{fname}` not found in {m.rel}")
+        key = _r3_key(m, fname, thorough)
+        cached = replay(key)
+        if cached is not None:
+            runs += cached
+            continue
+        recording.clear()
         bad = None
         n_cases = 0
         distract = [T[pool[0]], T[pool[1]]]  # two matching classes in the *other* field: reading the wrong field is visible
@@ -653,9 +693,9 @@ def _r3(chk, m, thorough: bool = False) -> None:
                 if not good and bad is None:
                     bad = f"steps [{_show(steps)}]: {len(found)} {base} class(es) {sorted(found)} but `{fname}` gives {got[0]} {getattr(got[1], '__name__', got[1])}"
         runs += n_cases
-        fn = m.functions[fname]
-        chk.ob("C23.R3", f"`{fname}` raises iff the number of distinct {base} subclasses in `{field}` is not 1 and returns that class otherwise "
-               f"(all {n_cases} step sets with <=3 steps over {pool}, <=2 classes per step)", bad is None, m=m, node=fn, fn=fn, instance=f"exactly-one:{base}", reason=bad or "")
+        emit(fname, f"`{fname}` raises iff the number of distinct {base} subclasses in `{field}` is not 1 and returns that class otherwise "
+             f"(all {n_cases} step sets with <=3 steps over {pool}, <=2 classes per step)", bad is None, f"exactly-one:{base}", bad or "")
+        _R3_MEMO[key] = (list(recording), n_cases)
 
     # ---- connectivity + HITL flag
     U = [T[x] for x in ("StartEvent", "StopEvent", "EvA", "EvB", "InputRequiredEvent", "MyInput", "MyResponse", "StepFailedEvent")]
@@ -678,16 +718,21 @@ def _r3(chk, m, thorough: bool = False) -> None:
         one = [(a, r) for a in _subsets(U, 2, 1) for r in _subsets(RET, 2)]
         for a, r in one:
             yield {"s0": _step(a, r)}
-        U2 = U if thorough else [c for c in U if c.__name__ not in ("InputRequiredEvent", "EvB")]
+        U2 = [c for c in U if c.__name__ not in ("InputRequiredEvent", "EvB")]
         R2 = U2 + [T["NoneType"]]
         small = [(a, r) for a in _subsets(U2, 1, 1) for r in _subsets(R2, 2 if thorough else 1)]
         for (a0, r0), (a1, r1) in itertools.product(small, repeat=2):
             yield {"s0": _step(a0, r0), "s1": _step(a1, r1)}
 
+    if "_validate_event_connectivity" not in m.functions:
+        raise AnchorError(f"C23.R3: `_validate_event_connectivity` not found in {m.rel}")
+    key = _r3_key(m, "_validate_event_connectivity", thorough)
+    cached = replay(key)
+    recording.clear()
     bad_accept = None
     bad_flag: dict[str, str | None] = {"produced": None, "consumed": None, "neither": None}
     n_cases = n_flag = 0
-    for steps in domain():
+    for steps in (domain() if cached is None else ()):
         want = spec(steps, T["StartEvent"])
         got = _run(m, env, hooks, "_validate_event_connectivity", {"steps": steps, "start_event_class": T["StartEvent"]})
         n_cases += 1
@@ -699,21 +744,29 @@ def _r3(chk, m, thorough: bool = False) -> None:
                 prod = any(issub(c, T["InputRequiredEvent"]) for s_ in steps.values() for c in s_.return_types)
                 side = "produced" if prod else ("consumed" if want[1] else "neither")
                 bad_flag[side] = bad_flag[side] or f"steps [{_show(steps)}]: HITL flag must be {want[1]} but the function returns {got[1]!r}"
-    runs += n_cases
-    fn = m.functions["_validate_event_connectivity"]
-    chk.ob("C23.R3", f"`_validate_event_connectivity` rejects exactly the step sets the statement rejects ({n_cases} step sets: 1 step with <=2 accepted and <=2 returned classes, "
-           f"2 steps with 1 accepted and <={2 if thorough else 1} returned, over {[c.__name__ for c in U]})", bad_accept is None, m=m, node=fn, fn=fn, instance="connectivity:accept", reason=bad_accept or "")
-    for side, text in (("produced", "true whenever a subclass of InputRequiredEvent is produced"), ("consumed", "true whenever a subclass of HumanResponseEvent is consumed"),
-                       ("neither", "false when neither holds")):
-        chk.ob("C23.R3", f"the HITL flag is {text} (all {n_flag} accepted step sets of the universe)", bad_flag[side] is None, m=m, node=fn, fn=fn,
-               instance=f"hitl-flag:{side}", reason=bad_flag[side] or "")
+    if cached is not None:
+        runs += cached
+    else:
+        runs += n_cases
+        cn = "_validate_event_connectivity"
+        emit(cn, f"`_validate_event_connectivity` rejects exactly the step sets the statement rejects ({n_cases} step sets: 1 step with <=2 accepted and <=2 returned classes, "
+             f"2 steps with 1 accepted and <={2 if thorough else 1} returned, over {[c.__name__ for c in U]})", bad_accept is None, "connectivity:accept", bad_accept or "")
+        for side, text in (("produced", "true whenever a subclass of InputRequiredEvent is produced"), ("consumed", "true whenever a subclass of HumanResponseEvent is consumed"),
+                           ("neither", "false when neither holds")):
+            emit(cn, f"the HITL flag is {text} (all {n_flag} accepted step sets of the universe)", bad_flag[side] is None, f"hitl-flag:{side}", bad_flag[side] or "")
+        _R3_MEMO[key] = (list(recording), n_cases)
 
     # ---- catch_error handler consistency
     names = ["a", "b", "h1", "h2"]
     choices = [None, [], ["a"], ["b"], ["a", "b"], ["h2"], ["h1"], ["zz"]]
+    if "validate_catch_error_handlers" not in m.functions:
+        raise AnchorError(f"C23.R3: `validate_catch_error_handlers` not found in {m.rel}")
+    key = _r3_key(m, "validate_catch_error_handlers", thorough)
+    cached = replay(key)
+    recording.clear()
     bad = None
     n_cases = 0
-    for k in (0, 1, 2):
+    for k in ((0, 1, 2) if cached is None else ()):
         for fs in itertools.product(choices, repeat=k):
             hs = [Record("CatchErrorHandler", step_name=f"h{i + 1}", for_steps=f, max_recoveries=1) for i, f in enumerate(fs)]
             hnames = {h.step_name for h in hs}
@@ -729,10 +782,13 @@ def _r3(chk, m, thorough: bool = False) -> None:
             n_cases += 1
             if got[0] != "ok" or bool(got[1]) != incons:
                 bad = bad or f"handlers {[(h.step_name, h.for_steps) for h in hs]} over steps {names}: inconsistent={incons} but the function returns {got[1]!r}"
-    runs += n_cases
-    fn = m.functions.get("validate_catch_error_handlers")
-    chk.ob("C23.R3", f"`validate_catch_error_handlers` reports an error iff there are two wildcards, an unknown / handler target, or a step claimed twice ({n_cases} handler sets, <=2 handlers)",
-           bad is None, m=m, node=fn, fn=fn, instance="catch-error:consistent", reason=bad or "")
+    if cached is not None:
+        runs += cached
+    else:
+        runs += n_cases
+        emit("validate_catch_error_handlers", f"`validate_catch_error_handlers` reports an error iff there are two wildcards, an unknown / handler target, or a step claimed twice ({n_cases} handler sets, <=2 handlers)",
+             bad is None, "catch-error:consistent", bad or "")
+        _R3_MEMO[key] = (list(recording), n_cases)
     chk.extra["r3_domain"] = {"interpreted_runs": runs, "thorough": thorough}
     chk.exhaustive = True
 
